@@ -197,6 +197,20 @@ def gen_props(ctx, tier):
             u[int(rng.integers(size))] = -1.0
         bs = int(rng.choice([1, 2, 3, size, size + 2]))
         yield u, bs
+    # heavy-tailed weights (a few dominant entries, many of relative size 1e-8 .. 1e-14) next to zero-weight and NaN entries, batches
+    # that need more than the dominant entries; and large pools of equal weights with batches of hundreds
+    for _ in range(n // 6):
+        size = int(rng.integers(8, 40))
+        u = np.concatenate([[1.0, 0.5], 10.0 ** -rng.integers(8, 15, size=size).astype(float)])
+        u = np.concatenate([u, np.zeros(int(rng.integers(1, 6))), np.full(int(rng.integers(0, 4)), NAN)])
+        rng.shuffle(u)
+        npos = int(np.sum(u > 0))
+        yield u, int(rng.choice([3, npos // 2 + 1, npos]))
+    for big in ([3000] if tier == "quick" else [3000, 6000, 9000]):
+        u = np.ones(big)
+        u[rng.random(big) < 0.4] = np.nan
+        u[rng.random(big) < 0.1] = 0.0
+        yield u, int(np.sum(u > 0) * 0.8)
 
 
 # ------------------------------------------------------------------ check ---
@@ -350,9 +364,13 @@ def run(ctx):
         msg = oracle_batch(u, bs, picks, rows, "proportional")
         if msg:
             ctx.violation("simple_batch_proportional", "malformed_batch", msg,
-                          {"component": "prop", "u": hexes(u), "bs": bs, "seed": seed}, what=msg)
+                          {"component": "prop", "u": hexes(u) if u.size <= 400 else {"n": int(u.size), "nan": int(np.isnan(u).sum()), "zero": int(np.sum(u == 0)), "equal_positive_weight": 1.0},
+                           "bs": bs, "seed": seed}, what=msg)
         if not guard:
             continue  # numpy accepted something outside the modelled guard (e.g. k=0); oracle above still applied
+        if u.size > 100:
+            ctx.count("simple_batch_proportional_large(direct oracle only)")
+            continue  # large pools: the statement's oracle only (a k x n row matrix as a Coq literal would take minutes)
         rk = rkeys(u, list(rows))
         p_cases.append(f"({vlist(rk[0])}, {natlit(k)}, {natlist([int(p) for p in picks])}, {listlit([vlist(r) for r in rk[1:]])})")
         p_meta.append((u, bs, seed, [int(p) for p in picks], rows))
